@@ -557,7 +557,11 @@ def run(ctx):
     if flags_mod is not None:
         try:
             with ctx.timed("gen_flags"):
-                ctx.cov["flags"] = jsonable(c02_flags.gen_flags(ctx))
+                g = c02_flags.gen_flags(ctx)
+                # summary only: the full table/evaluations live in coq/gen/Gen_Flags.v (the evidence file must stay small)
+                ctx.cov["flags"] = {"table_entries": len(g["table"]), "separator_aliases": len(g["seps"]), "argvs_evaluated": len(g["argvs"]),
+                                    "argvs_rejected": sum(1 for v in g["evals"].values() if not v.get("ok") or v.get("final") is None),
+                                    "changed_option_fields": len(g.get("changed") or []), "generated_file": "coq/gen/Gen_Flags.v"}
         except Exception as ex:
             ctx.violation({"broken": "gen_flags", "detail": repr(ex)[-1500:]}, found_input=False)
     forbidden_gate(ctx, ["Base", "C02"])
